@@ -200,7 +200,7 @@ pub fn random(args: &Args) {
                     handles.push((1, hd, name, true));
                 }
             }
-            let d = iface.poll_at(Instant::from_millis(now), &sockets).map(|x| (x.total_micros() + 999).div_euclid(1000)).unwrap_or(-1);
+            let d = iface.poll_at(Instant::from_millis(now), &sockets).map(crate::util::ms_ceil).unwrap_or(-1);
             pending.sort_by_key(|x| x.0);
             let next_rx = pending.first().map(|x| x.0).unwrap_or(i64::MAX);
             let mut tpoll = if d < 0 { now + 1000 } else { d.max(now) };
@@ -240,7 +240,7 @@ pub fn random(args: &Args) {
                 break;
             }
             let out = dev.take_tx();
-            let pa = iface.poll_at(Instant::from_millis(now), &sockets).map(|x| (x.total_micros() + 999).div_euclid(1000)).unwrap_or(-1);
+            let pa = iface.poll_at(Instant::from_millis(now), &sockets).map(crate::util::ms_ceil).unwrap_or(-1);
             let mut outs: Vec<Value> = vec![];
             for o in &out {
                 let Some(ip) = parse_ip(o) else { continue };
